@@ -290,12 +290,13 @@ func (o *objectGoSlice) iterateStringKeys() iterNextFunc {
 	}).next
 }
 
-func (o *objectGoSlice) stringKeys(_ bool, accum []Value) []Value {
+func (o *objectGoSlice) stringKeys(all bool, accum []Value) []Value {
 	for i := range *o.data {
 		accum = append(accum, asciiString(strconv.Itoa(i)))
 	}
 
-	return accum
+	// the non-enumerable, non-configurable own property "length" (registered in init) is an own key as well
+	return o.baseObject.stringKeys(all, accum)
 }
 
 func (o *objectGoSlice) export(*objectExportCtx) interface{} {
